@@ -99,3 +99,59 @@ def random_opts(rng, p=0.25):
     names = ("positive_init_speed", "positive_init_density", "positive_init_queue",
              "positive_next_speed", "positive_next_density", "positive_next_queue")
     return {o: True for o in names if rng.random() < p}
+
+
+class OwnSuccessors:
+    """The library's OWN successors of a stepped network: the `next_states` expressions held by the
+    elements, evaluated by the harness' own casadi.Function (not to_function).  Used where a check
+    must decide *layout / bookkeeping* independently of whether the dynamics themselves are right."""
+
+    def __init__(self, M, net, symtype, names_to_values):
+        import random
+
+        from vf import oracle as O
+
+        self.next = {}
+        symvals = O.SymVals(random.Random(0))
+        for k, v in names_to_values.items():
+            symvals.set(k, v)
+        exprs, index = [], []
+        for el in net.elements:
+            if el.next_states:
+                for name, e in el.next_states.items():
+                    exprs.append(e)
+                    index.append((el, name))
+        nums, used = O.eval_exprs(exprs, symtype, symvals)
+        self.by_object = {}
+        for (el, name), v in zip(index, nums):
+            self.by_object.setdefault(id(el), {})[name] = v
+        def known(n):
+            if n in names_to_values:
+                return True
+            base, _, k = n.rpartition("_")
+            return k.isdigit() and base in names_to_values
+
+        self.unknown_symbols = [u for u in used if not known(u)]
+
+
+def own_successors(case, vals, pvalues=None):
+    """{element id: {state name: [values]}} from the elements' own next_states expressions."""
+    names = {e["id"]: e["name"] for grp in ("links", "origins", "dests") for e in case.desc[grp]}
+    lay = D.var_layout(case.desc)
+    table = {}
+    for eid, L in lay.items():
+        for grp in ("states", "actions", "disturbances"):
+            for v, n in L[grp]:
+                table[f"{v}_{names[eid]}"] = vals[eid][v]
+                table[f"{v}_{eid}"] = vals[eid][v]
+    pv = case.pvalues if pvalues is None else pvalues
+    for k in case.parameters:
+        table[k] = pv[k]
+    own = OwnSuccessors(case.M, case.built.net, case.symtype, table)
+    if own.unknown_symbols:
+        raise ValueError(f"symbols without a registered value: {own.unknown_symbols[:4]}")
+    out = {}
+    for eid, el in case.built.elements.items():
+        if id(el) in own.by_object:
+            out[eid] = own.by_object[id(el)]
+    return out
